@@ -8,6 +8,7 @@ import (
 	"fmt"
 	"sort"
 	"strings"
+	"unicode"
 
 	"github.com/itchyny/gojq"
 )
@@ -248,12 +249,16 @@ func checkQuery(c queryCase) string { return judgeQuery(c, nil) }
 
 func judgeQuery(c queryCase, note func(r qref, w want, known string)) string {
 	if c.Mode == "arg" {
+		lead := len(c.Src) - len(strings.TrimLeftFunc(c.Src, unicode.IsSpace))
 		c.Src = strings.TrimSpace(c.Src) // documented: cli.go trims the argument
+		if c.ExpStart >= 0 {
+			c.ExpStart -= lead
+		}
 		if c.Src == "" || c.Src[0] == '-' || strings.IndexByte(c.Src, 0) >= 0 {
 			rec.Discard("query/not-an-argument")
 			return ""
 		}
-		if c.ExpStart >= len(c.Src) {
+		if c.ExpStart >= len(c.Src) || c.ExpStart < 0 {
 			c.ExpStart = -1
 		}
 	}
@@ -293,7 +298,7 @@ func judgeQuery(c queryCase, note func(r qref, w want, known string)) string {
 		// the library clause is reported by the lib sub-check; the command
 		// cannot be judged against an inconsistent (Offset, Token)
 		rec.Discard("query/library-inconsistent")
-		return "DEBUG " + msg
+		return ""
 	}
 	// command level
 	var o runOpt
